@@ -61,6 +61,8 @@ import "bytes"
 //@   let w0 = written(dest)
 //@   let n = len(segment.Payload.UncompressedData)
 //@   ensures refused: n > 131071 ==> err != nil && written(dest) == w0
+//@   ensures plain: n <= 131071 && c.compressor == nil && err == nil ==> written(dest) == w0 + 6 + n + 4 && wle3(dest, w0) == hdrU(segment.Header) && Z(segment.Header.UncompressedPayloadLength) == Z(n)
+//@   ensures lz4: n <= 131071 && c.compressor != nil && err == nil ==> written(dest) == w0 + 8 + Z(segment.Header.CompressedPayloadLength) + 4 && wle5(dest, w0) == hdrC(segment.Header)
 
 // A payload compressor touches only the two streams it is given (a bound on the compressed size is not under proof,
 // so encodeSegmentCompressed's use of the 32-bit length field is not covered)
@@ -69,10 +71,25 @@ import "bytes"
 //@ iface PayloadCompressor.Compress
 //@   prop C06, C08
 //@   assigns rstream(source), wstream(dest)
+//@   assumes bound: result == nil ==> Z(written(dest)) - Z(old(written(dest))) <= 2 * (Z(avail(source)) - Z(old(pos(source)))) + 16
 
 //@ iface PayloadCompressor.Decompress
 //@   prop C06, C08
 //@   assigns rstream(source), wstream(dest)
+
+// The compressed segment: 8-byte header with both lengths (v5 spec 2.2), the transmitted payload, its CRC-32. When
+// compression does not help, the payload goes out uncompressed and the uncompressed-length field is 0.
+
+//@ func (*codec).encodeSegmentCompressed
+//@   prop C06
+//@   assigns wstream(dest), segment.Header.CompressedPayloadLength, segment.Header.UncompressedPayloadLength, segment.Payload.Crc32
+//@   requires seg: segment.Header != nil && segment.Payload != nil && c.compressor != nil
+//@   requires len: len(segment.Payload.UncompressedData) <= 131071 && Z(segment.Header.UncompressedPayloadLength) == Z(len(segment.Payload.UncompressedData))
+//@   let w0 = written(dest)
+//@   let n = len(segment.Payload.UncompressedData)
+//@   ensures lens: err == nil ==> lensOk(segment.Header) && (segment.Header.UncompressedPayloadLength == 0 ==> Z(segment.Header.CompressedPayloadLength) == Z(n)) && (segment.Header.UncompressedPayloadLength != 0 ==> Z(segment.Header.UncompressedPayloadLength) == Z(n) && segment.Header.CompressedPayloadLength <= segment.Header.UncompressedPayloadLength)
+//@   ensures length: err == nil ==> written(dest) == w0 + 8 + Z(segment.Header.CompressedPayloadLength) + 4
+//@   ensures header: err == nil ==> wle5(dest, w0) == hdrC(segment.Header) && wle3(dest, w0 + 5) == uint64(crc.ChecksumKoopman(hdrC(segment.Header), 5))
 
 // ---- read side -----------------------------------------------------------------------------------------------
 
@@ -120,6 +137,7 @@ import "bytes"
 //@   let n = len(segment.Payload.UncompressedData)
 //@   ensures length: err == nil ==> written(dest) == w0 + 6 + n + 4
 //@   ensures fields: err == nil ==> segment.Header.CompressedPayloadLength == 0 && Z(segment.Header.UncompressedPayloadLength) == Z(n)
+//@   ensures header: err == nil ==> wle3(dest, w0) == hdrU(segment.Header) && wle3(dest, w0 + 3) == uint64(crc.ChecksumKoopman(hdrU(segment.Header), 3))
 //@   ensures trailer: err == nil ==> segment.Payload.Crc32 == crc32of(crc.initialChecksum, win(segment.Payload.UncompressedData), n) && wbyte(dest, w0 + 6 + n) == uint8(segment.Payload.Crc32) && wbyte(dest, w0 + 6 + n + 1) == uint8(segment.Payload.Crc32 >> 8) && wbyte(dest, w0 + 6 + n + 2) == uint8(segment.Payload.Crc32 >> 16) && wbyte(dest, w0 + 6 + n + 3) == uint8(segment.Payload.Crc32 >> 24)
 
 // ---- round trip of the header (lemma over the two contracts) ---------------------------------------------------
